@@ -171,6 +171,8 @@ type Sorts struct {
 	idTypes []types.Type
 	ifaceImpl map[Sort]map[int]types.Type // iface sort -> type ids used with inj/proj
 	rangeFn   func(x Term, t types.Type, depth int) Term
+	noValInv  bool     // rangeFn without representation invariants (valinv)
+	late      []string // axioms that mention spec functions: emitted after their definitions
 	pkg       string // package of the function under verification
 }
 
@@ -520,7 +522,11 @@ func (ss *Sorts) ensureInj(iface Sort, id int, ct types.Type, cs Sort) {
 	// mathematical integer is not a Go value)
 	guard := "true"
 	if ss.rangeFn != nil {
+		// (the guard is about the integer ranges only; representation invariants
+		// of the payload type are stated by the separate axiom below)
+		ss.noValInv = true
 		guard = ss.rangeFn(Term{"x", cs, ct}, ct, 1).S
+		ss.noValInv = false
 	}
 	decl := fmt.Sprintf("(declare-fun inj.%s.%d (%s) %s)\n(declare-fun proj.%s.%d (%s) %s)\n", iface, id, cs, iface, iface, id, iface, cs) +
 		fmt.Sprintf("(assert (forall ((x %s)) (! (=> %s (and (= (tag.%s (inj.%s.%d x)) %d) (= (proj.%s.%d (inj.%s.%d x)) x))) :pattern ((inj.%s.%d x)))))\n", cs, guard, iface, iface, id, id, iface, id, iface, id, iface, id) +
@@ -530,7 +536,14 @@ func (ss *Sorts) ensureInj(iface Sort, id int, ct types.Type, cs Sort) {
 	if ss.rangeFn != nil {
 		p := Term{fmt.Sprintf("(proj.%s.%d i)", iface, id), cs, ct}
 		if f := ss.rangeFn(p, ct, 1); f.S != "true" {
-			decl += fmt.Sprintf("\n(assert (forall ((i %s)) (! (=> (= (tag.%s i) %d) %s) :pattern ((proj.%s.%d i)))))", iface, iface, id, f.S, iface, id)
+			ax := fmt.Sprintf("(assert (forall ((i %s)) (! (=> (= (tag.%s i) %d) %s) :pattern ((proj.%s.%d i)))))", iface, iface, id, f.S, iface, id)
+			if strings.Contains(f.S, "(sp.") {
+				// mentions spec functions (a representation invariant): emitted
+				// after their definitions
+				ss.late = append(ss.late, ax)
+			} else {
+				decl += "\n" + ax
+			}
 		}
 	}
 	ss.declare(&sortInfo{Name: name, Kind: "inj", Decl: decl})
